@@ -5,7 +5,7 @@
     Sni/HelloGen.v). *)
 From Coq Require Import List NArith Bool.
 From Verif Require Import Lib.Bytes Sni.Wire Sni.Hello Sni.HelloProofs Sni.Handover
-  Sni.HandoverProofs Sni.HelloGen Gen.HelloConsts.
+  Sni.HandoverProofs Sni.HelloResult Sni.HelloResultProofs Sni.HelloGen Gen.HelloConsts.
 Import ListNotations.
 Local Open Scope N_scope.
 
@@ -89,6 +89,7 @@ Proof.
   exact (fun pol stream sched late ms peeked Hpol =>
            sniff_then_handover pol gen_hello_buf_size stream sched late ms peeked Hpol gen_cap_ge5).
 Qed.
+Print Assumptions C14_handover_all_read_sizes.
 
 (** ... and the policy emitted from the current TLSHelloConn.Read is one of them. *)
 Theorem C14_handover_here : forall stream sched late ms,
@@ -105,6 +106,7 @@ Proof.
            sniff_then_handover gen_read_handover gen_hello_buf_size stream sched late ms 0
              gen_read_handover_transparent gen_cap_ge5).
 Qed.
+Print Assumptions C14_handover_here.
 
 (** Every Read with a non-empty caller buffer returns at least one byte while
     bytes are owed - under either policy, whether it is served from the peek
@@ -119,6 +121,7 @@ Proof.
            hc_read_progress pol gen_hello_buf_size m h got e h' Hpol
              (N.lt_le_trans 0 5 _ eq_refl gen_cap_ge5) Hinv).
 Qed.
+Print Assumptions C14_handover_progress.
 
 (** Why the policy matters: releasing the reader once as many bytes as
     HelloInfo peeked were returned (seeded change C14-d) loses whatever the
@@ -137,6 +140,29 @@ Proof.
            handover_by_count_drops gen_hello_buf_size b hello extra
              (N.lt_le_trans 0 5 _ eq_refl gen_cap_ge5)).
 Qed.
+Print Assumptions C14_handover_by_count_drops.
+
+(** Whose result it is.  The caller reads the returned *TLSHelloInfo later -
+    hostConn's dialer reads hello.ServerName after other connections have
+    been sniffed.  Any sequence of HelloInfo calls (any number of connections,
+    in any order), every result held until after the last call: with the
+    origin of the result emitted from the current source, each result still
+    says what its own hello said. *)
+Theorem C14_held_results_stable : forall xs : list hinfo,
+  held_after gen_hello_result_origin xs = Some xs.
+Proof.
+  exact (fun xs => eq_trans (f_equal (fun o => held_after o xs) gen_hello_result_origin_eq)
+                            (held_results_stable xs)).
+Qed.
+Print Assumptions C14_held_results_stable.
+
+(** A result that lives in a pooled (or package-level) object: refuted - after
+    a second HelloInfo the first result says what the second hello said
+    (seeded change C14-g). *)
+Theorem C14_pooled_result_refuted : forall a b : hinfo,
+  held_after OPooled [a; b] = Some [b; b] /\ held_after OPackageLevel [a; b] = Some [b; b].
+Proof. exact pooled_result_overwritten. Qed.
+Print Assumptions C14_pooled_result_refuted.
 
 (** Never a wrong name: what is reported is empty, or it is what the parse
     of the complete first record yields. *)
@@ -178,11 +204,12 @@ Theorem C14_source_tie :
   16 <= gen_hello_buf_size /\
   gen_hello_header_len = header_len /\ gen_hello_handshake = rec_handshake /\
   handover_transparentb gen_read_handover = true /\
+  origin_freshb gen_hello_result_origin = true /\
   hello_src_frozenb = true.
 Proof.
   exact (conj gen_cap_ok (conj gen_cap_min
           (conj (proj1 gen_header_consts) (conj (proj2 gen_header_consts)
-            (conj gen_read_handover_transparent gen_hello_src_frozen))))).
+            (conj gen_read_handover_transparent (conj gen_hello_result_fresh gen_hello_src_frozen)))))).
 Qed.
 Print Assumptions C14_source_tie.
 
